@@ -41,6 +41,16 @@ theorem own_sound (p : Prog Act) (borrowed : List Nat)
     ∀ l, l < m → (exec Owner.sem p o s).2.1.heap l = s.heap l :=
   Owner.caller_memory_untouched p borrowed h m o s hnext henv
 
+/-- **trace_matcher_complete** (tie between the skeletons and the real code): the matcher the
+correspondence run uses never rejects a sequence of assignments that some execution of the skeleton
+emits.  So when the ordered assignments recorded from a real call are rejected, NO execution of the
+regenerated skeleton describes that call: the translation (or the code) changed. -/
+theorem trace_matcher_complete (p : Prog Act) (evs : List Trace.Ev) (o : Oracle)
+    (hok : (analyze (Trace.dom evs) p [0]).ok = true)
+    (hemit : (exec (Trace.sem evs) p o (some 0)).2.1 = some evs.length) :
+    Trace.accepts p evs = true :=
+  Trace.emitted_is_accepted p evs o hok hemit
+
 /-! ### decided on the regenerated skeletons of the current source -/
 
 /-- every public method of every estimator class restores every hyper-parameter on every exit -/
@@ -91,6 +101,10 @@ example : exitsGood (fun _ _ => true)
 example : exitsGood (fun _ _ => true)
     (analyze Owner.dom (.seq (.atom (.bindAlias 1 [0])) (.seq (.atom (.bindFresh 1)) (.atom (.mutate 1)))) [0]) = true := by
   decide
+
+/-- the matcher accepts what `halveFinally` emits when the call raises (write, restore) and rejects a
+lone write (the restore in `finally` cannot be skipped) -/
+example : Trace.accepts halveFinally [.P 0, .P 0] = true ∧ Trace.accepts halveFinally [.P 0] = false := by decide
 
 example : methods ≠ [] := by decide
 
